@@ -357,6 +357,229 @@ fn run_order(h: &Hist, memo: &mut HashMap<u32, Expect>, order: &[usize], out: &O
     }
 }
 
+// ------------------------------------------------------------------------------------------ damage after indexing
+
+/// what happens to a pack in storage AFTER the replica has indexed it (refresh ran) and BEFORE its block arrives
+#[derive(Clone, Debug)]
+pub enum Dmg {
+    /// byte at this index: xor 1 (replacement 0) or set to the replacement byte
+    Flip(usize, u8),
+    /// keep only this many leading bytes
+    Trunc(usize),
+    Delete,
+}
+
+impl Dmg {
+    fn name(&self) -> String {
+        match self {
+            Dmg::Flip(p, 0) => format!("flip{}", p),
+            Dmg::Flip(p, b) => format!("set{}-{:02x}", p, b),
+            Dmg::Trunc(l) => format!("trunc{}", l),
+            Dmg::Delete => "delete".to_string(),
+        }
+    }
+    fn to_json(&self) -> Value {
+        match self {
+            Dmg::Flip(p, b) => json!({"flip": p, "byte": b}),
+            Dmg::Trunc(l) => json!({ "trunc": l }),
+            Dmg::Delete => json!("delete"),
+        }
+    }
+    fn from_json(v: &Value) -> Option<Dmg> {
+        if v.as_str() == Some("delete") {
+            return Some(Dmg::Delete);
+        }
+        if let Some(l) = v["trunc"].as_u64() {
+            return Some(Dmg::Trunc(l as usize));
+        }
+        Some(Dmg::Flip(v["flip"].as_u64()? as usize, v["byte"].as_u64().unwrap_or(0) as u8))
+    }
+    fn apply(&self, map: &mut std::collections::BTreeMap<String, Vec<u8>>, key: &str) {
+        match self {
+            Dmg::Delete => {
+                map.remove(key);
+            }
+            Dmg::Trunc(l) => {
+                if let Some(d) = map.get_mut(key) {
+                    let l = (*l).min(d.len().saturating_sub(1));
+                    d.truncate(l);
+                }
+            }
+            Dmg::Flip(p, b) => {
+                if let Some(d) = map.get_mut(key) {
+                    if !d.is_empty() {
+                        let p = (*p).min(d.len() - 1);
+                        d[p] = if *b == 0 || *b == d[p] { d[p] ^ 0x01 } else { *b };
+                    }
+                }
+            }
+        }
+    }
+}
+
+pub struct DamageJob {
+    pack: usize,
+    dmg: Dmg,
+    /// false: damaged right after the refresh that followed the pack's delivery; true: just before its block is delivered
+    late: bool,
+    order: Vec<usize>,
+}
+
+/// `order` delivers `pack` strictly before the block that lists it. From the damage on, after every delivered file:
+/// refresh may be Ok or Err (no panic); Applied blocks == blocks complete over the INTACT items (the damaged pack
+/// counts as missing, so its block and all descendants are incomplete); state == state of a replica holding only
+/// those complete blocks and the intact packs; get_value of every object == that replica's.  When the block arrives
+/// and at the end: a fresh Melda::new on the damaged storage is Err or shows that same state.
+fn run_damage(h: &Hist, memo: &mut HashMap<u32, Expect>, job: &DamageJob, out: &Out) {
+    let os = h.order_str(&job.order);
+    let kind = format!("{}{}", job.dmg.name(), if job.late { ".late" } else { "" });
+    let id = format!("damage-after-index:{}:{}:{}", h.labels[job.pack], kind, os);
+    let mut input = input_of(h, &job.order);
+    input["pack"] = json!(h.labels[job.pack]);
+    input["damage"] = job.dmg.to_json();
+    input["late"] = json!(job.late);
+    out.begin(&id, input.clone());
+    out.case(&id, true);
+    let fail = |what: String| out.fail(&format!("damage-after-index:{}", match job.dmg { Dmg::Flip(..) => "flip", Dmg::Trunc(..) => "truncate", Dmg::Delete => "delete" }), &id, input.clone(), &what);
+    let block = match h.blocks.iter().find(|b| b.packs.contains(&job.pack)) {
+        Some(b) => b.file,
+        None => return fail(format!("no block lists {}", h.labels[job.pack])),
+    };
+    let (pp, bp) = (job.order.iter().position(|f| *f == job.pack), job.order.iter().position(|f| *f == block));
+    if !matches!((pp, bp), (Some(p), Some(b)) if p < b) {
+        return fail("driver: the order does not deliver the pack before its block".into());
+    }
+    let map = std::sync::Arc::new(std::sync::Mutex::new(std::collections::BTreeMap::new()));
+    let c = orch::dynof(orch::StoreAdapter { map: map.clone() });
+    let mut r: Melda = match orch::open(&c) {
+        Ok(r) => r,
+        Err(e) => return fail(format!("on an empty adapter: {}", e)),
+    };
+    let mut mask = 0u32;
+    let mut damaged = false;
+    for (k, f) in job.order.iter().enumerate() {
+        let step = k + 1;
+        if job.late && *f == block && !damaged {
+            job.dmg.apply(&mut map.lock().unwrap(), &h.keys[job.pack]);
+            damaged = true;
+        }
+        map.lock().unwrap().insert(h.keys[*f].clone(), h.bytes[*f].clone());
+        mask |= 1 << f;
+        let refreshed = orch::g(|| r.refresh());
+        let at = format!("after delivering {} (step {}, pack {} {})", h.labels[*f], step, h.labels[job.pack], if damaged { "already damaged" } else { "intact" });
+        match (&refreshed, damaged) {
+            (Err(p), _) => return fail(format!("{}: panic in refresh: {}", at, p)),
+            (Ok(Err(e)), false) => return fail(format!("{}: refresh is Err({}) on intact storage", at, e)),
+            _ => {}
+        }
+        if damaged {
+            let eff = mask & !(1u32 << job.pack);
+            let ex = match expect(h, memo, eff) {
+                Ok(e) => e,
+                Err(e) => return fail(format!("driver: {}", e)),
+            };
+            let label = |bid: &str| h.blocks.iter().find(|b| b.id == bid).map(|b| h.labels[b.file].clone()).unwrap_or_else(|| bid.to_string());
+            match orch::g(|| r.vf_delta_statuses()) {
+                Err(p) => return fail(format!("{}: panic reading the block statuses: {}", at, p)),
+                Ok(st) => {
+                    let applied: BTreeSet<String> = st.iter().filter(|(_, s)| s == "Applied").map(|(i, _)| i.clone()).collect();
+                    if applied != ex.complete {
+                        return fail(format!(
+                            "{}: Applied blocks {:?} but the blocks complete over the intact items are {:?}",
+                            at,
+                            applied.iter().map(|i| label(i)).collect::<Vec<String>>(),
+                            ex.complete.iter().map(|i| label(i)).collect::<Vec<String>>()
+                        ));
+                    }
+                }
+            }
+            let s = orch::state(&r);
+            if s != ex.reference {
+                let d = orch::first_difference(&s, &ex.reference, &orch::STATE_KEYS).unwrap_or_else(|| ex.reference.to_string());
+                return fail(format!("{}: replica state vs state of the complete blocks over the intact items; {}", at, d));
+            }
+            let v = values_of(&r);
+            if v != ex.values {
+                let o = v.as_object().and_then(|m| m.iter().find(|(k, x)| ex.values.get(k.as_str()) != Some(*x)).map(|(k, x)| format!("{}: {} vs {}", k, x, ex.values[k.as_str()]))).unwrap_or_default();
+                return fail(format!("{}: get_value differs from the intact reference; {}", at, o));
+            }
+            if *f == block || step == job.order.len() {
+                match orch::open(&c) {
+                    Err(_) => {}
+                    Ok(fresh) => {
+                        let sf = orch::state(&fresh);
+                        if sf != ex.reference {
+                            let d = orch::first_difference(&sf, &ex.reference, &orch::STATE_KEYS).unwrap_or_else(|| ex.reference.to_string());
+                            return fail(format!("{}: a FRESH replica on the damaged storage opens and differs from the state over the intact items; {}", at, d));
+                        }
+                    }
+                }
+            }
+        }
+        if !job.late && *f == job.pack {
+            job.dmg.apply(&mut map.lock().unwrap(), &h.keys[job.pack]);
+            damaged = true;
+        }
+    }
+}
+
+fn damage_jobs(h: &Hist, thorough: bool, rng: &mut Rng) -> Vec<DamageJob> {
+    let mut jobs = vec![];
+    let per = if thorough { 60 } else { 8 };
+    for b in &h.blocks {
+        for pack in b.packs.iter().filter(|p| **p != usize::MAX) {
+            let len = h.bytes[*pack].len();
+            let mut kinds = vec![Dmg::Flip(len / 2, 0), Dmg::Trunc(len / 2), Dmg::Delete];
+            if thorough {
+                for i in 0..8 {
+                    kinds.push(Dmg::Flip(i * len.saturating_sub(1) / 7, 0));
+                }
+                for (p, byte) in [(len / 3, b' '), (len / 2, b'}'), (2 * len / 3, b'"'), (0, b'{'), (len.saturating_sub(1), b',')] {
+                    kinds.push(Dmg::Flip(p, byte));
+                }
+                kinds.push(Dmg::Trunc(0));
+                kinds.push(Dmg::Trunc(len.saturating_sub(1)));
+            }
+            for dmg in kinds {
+                for late in [false, true] {
+                    let mut seen: BTreeSet<Vec<usize>> = BTreeSet::new();
+                    let mut tries = 0;
+                    while seen.len() < per && tries < per * 20 {
+                        tries += 1;
+                        let mut order: Vec<usize> = (0..h.n()).collect();
+                        rng.shuffle(&mut order);
+                        let pos = |f: usize| order.iter().position(|x| *x == f).unwrap();
+                        if pos(*pack) < pos(b.file) && seen.insert(order.clone()) {
+                            jobs.push(DamageJob { pack: *pack, dmg: dmg.clone(), late, order });
+                        }
+                    }
+                }
+            }
+        }
+    }
+    jobs
+}
+
+fn damage_family(thorough: bool, rng: &mut Rng, workers: usize, out: &Out) {
+    let h = match build(true, true) {
+        Ok(h) => Arc::new(h),
+        Err(e) => {
+            out.case("history:damage", true);
+            out.fail("history", "history:damage", json!({"history": "damage"}), &e);
+            return;
+        }
+    };
+    out.case("history:damage", true);
+    let jobs = damage_jobs(&h, thorough, rng);
+    out.note(&format!("damage-after-index: {} scenarios on the {} files of the history with pairwise distinct values", jobs.len(), h.n()));
+    orch::fan_out(out, workers, jobs, move |part: Vec<DamageJob>, out: &Out| {
+        let mut memo: HashMap<u32, Expect> = HashMap::new();
+        for j in &part {
+            run_damage(&h, &mut memo, j, out);
+        }
+    });
+}
+
 fn variants(h: &Hist) -> Vec<(String, Listing)> {
     // child blocks first: last block of the history first, ..., origin last (both the stem and the full key form)
     let mut front = vec![];
@@ -483,6 +706,7 @@ fn work(thorough: bool, seed: u64, out: &Out) {
                 listing_check(&long, (1u32 << n) - 1, true, out);
             }
         }
+        damage_family(false, &mut rng, 1, out);
         return;
     }
     // thorough: the orders are spread over sub-workers (each with its own memo of expected states)
@@ -546,6 +770,7 @@ fn work(thorough: bool, seed: u64, out: &Out) {
             }
         }
     }
+    damage_family(true, &mut rng, workers, out);
 }
 
 pub fn run(thorough: bool, seed: u64) -> Report {
@@ -570,9 +795,10 @@ pub fn run(thorough: bool, seed: u64) -> Report {
 
 pub fn replay(case: &Value) -> Value {
     let inp = case["input"].clone();
-    let long = inp["history"].as_str() == Some("long");
+    let uniq = inp["history"].as_str() == Some("damage");
+    let long = uniq || inp["history"].as_str() == Some("long");
     let fails = orch::replay_collect(move |out| {
-        let h = match build(long) {
+        let h = match build(long, uniq) {
             Ok(h) => h,
             Err(e) => {
                 out.fail("history", &format!("history:{}", if long { "long" } else { "base" }), json!({}), &e);
@@ -580,7 +806,10 @@ pub fn replay(case: &Value) -> Value {
             }
         };
         let labels = |key: &str| -> Option<Vec<usize>> { inp[key].as_array()?.iter().map(|l| l.as_str().and_then(|l| h.idx(l))).collect() };
-        if let Some(order) = labels("order") {
+        if let (Some(order), Some(pack), Some(dmg)) = (labels("order"), inp["pack"].as_str().and_then(|l| h.idx(l)), Dmg::from_json(&inp["damage"])) {
+            let mut memo = HashMap::new();
+            run_damage(&h, &mut memo, &DamageJob { pack, dmg, late: inp["late"].as_bool().unwrap_or(false), order }, out);
+        } else if let Some(order) = labels("order") {
             let mut memo = HashMap::new();
             run_order(&h, &mut memo, &order, out);
         } else if let Some(files) = labels("files") {
